@@ -10,8 +10,8 @@ PROPERTY = "C07"
 
 META = {
     "bounds": "address a symbolic 32-bit value (every alignment); payload "
-              "bytes symbolic; transfer lengths 0..12 bytes (quick) / 0..24 "
-              "(thorough) against advertised buffer sizes 4 and 6 (8, 16), i.e. "
+              "bytes symbolic; transfer lengths 0..12 bytes (quick) / 0..16 "
+              "(thorough) against advertised buffer sizes 4 and 6 (and 8), i.e. "
               "0 to 3 buffers plus a tail; window sizes 1..3; fill with a "
               "symbolic value, sizes 0..12; per-core (vcpu) fields with a "
               "symbolic vcpu_base stored in the machine and symbolic core "
@@ -40,7 +40,7 @@ META = {
         "memory initially holds a fixed function of the address, so a read "
         "of the wrong address shows",
     ],
-    "outside_claim": ["transfers longer than 24 bytes / more than 3 chunks "
+    "outside_claim": ["transfers longer than 16 bytes / more than 3 chunks "
                       "(the chunk arithmetic is periodic in the buffer size: "
                       "an argument, not checked)",
                       "fault budgets above 2"],
@@ -363,8 +363,8 @@ def h_struct(ctx, which, nfields):
 def units(tier, seed):
     us = []
     q = tier == "quick"
-    lens = (0, 1, 3, 4, 5, 8, 9, 10, 12) if q else tuple(range(0, 25))
-    bufs = (4, 6) if q else (4, 6, 8, 16)
+    lens = (0, 1, 3, 4, 5, 8, 9, 10, 12) if q else tuple(range(0, 17))
+    bufs = (4, 6) if q else (4, 6, 8)
     us.append(Unit("write lengths=%s bufs=%s" % (lens, bufs), h_rw,
                    dict(op="write", lengths=lens, bufs=bufs), split=5,
                    witnesses=("wrote",)))
@@ -403,16 +403,16 @@ def units(tier, seed):
         faults=1, kinds=("dup",)), split=6,
         witnesses=("read",), path_timeout_s=120))
     if not q:
-        us.append(Unit("write with faults, 2-3 chunks", h_rw, dict(
-            op="write", lengths=(6, 9), bufs=(4,), windows=(1, 2, 3),
+        us.append(Unit("write, 2 chunks, 3 fault kinds", h_rw, dict(
+            op="write", lengths=(6,), bufs=(4,), windows=(2, 3),
             faults=1, kinds=FK), split=8, witnesses=("wrote",),
             path_timeout_s=120))
-        us.append(Unit("read with faults, 2-3 chunks", h_rw, dict(
-            op="read", lengths=(6, 9), bufs=(4,), windows=(2, 3),
+        us.append(Unit("read, 2 chunks, 3 fault kinds", h_rw, dict(
+            op="read", lengths=(6,), bufs=(4,), windows=(2,),
             faults=1, kinds=FK), split=8, witnesses=("read",),
             path_timeout_s=120))
-        us.append(Unit("write with 2 faults", h_rw, dict(
-            op="write", lengths=(8,), bufs=(4,), windows=(2,),
+        us.append(Unit("write, 2 faults", h_rw, dict(
+            op="write", lengths=(5,), bufs=(4,), windows=(2,),
             faults=2, kinds=("lose_rep", "dup")), split=8,
             witnesses=("wrote",), path_timeout_s=120))
     return us
